@@ -1012,34 +1012,63 @@ sys.exit(1 if problems else 0)
 """
 
 
+def _enumerate_with_watchdog(cases_iter, check_one, stall_seconds=20):
+    """Runs check_one(input) -> failure dict or None over all inputs in a worker thread; a real function that
+    does not terminate on some input (e.g. after a mutation) is reported as a failure of that input instead of
+    hanging the check.  Returns (number of cases, failures)."""
+    import threading
+    state = {'n': 0, 'current': None, 'done': False, 'failures': []}
+
+    def work():
+        for x in cases_iter:
+            state['current'] = x
+            f = check_one(x)
+            if f is not None:
+                state['failures'].append(f)
+            state['n'] += 1
+        state['done'] = True
+
+    t = threading.Thread(target=work, daemon=True)
+    t.start()
+    last = (-1, None)
+    while not state['done']:
+        t.join(stall_seconds)
+        if state['done']:
+            break
+        now = (state['n'], state['current'])
+        if now == last:
+            state['failures'].append({'input': state['current'], 'expected': 'terminates',
+                                      'actual': 'no result within %d s (non-termination?)' % stall_seconds,
+                                      'replay': None})
+            break
+        last = now
+    return state['n'], state['failures']
+
+
 def _run_bounded(ctx, name, alphabet, max_len, sample=0, sample_len=(0, 0)):
     import itertools
     import random
-    failures = []
-    cases = 0
-    for n in range(0, max_len + 1):
-        for tup in itertools.product(alphabet, repeat=n):
-            src = ''.join(tup)
-            cases += 1
-            try:
-                problems = _observe_token_stream(src)
-            except Exception as e:       # an exception of the real code is a finding, not a checker error
-                problems = ['exception %r' % (e,)]
-            if problems:
-                failures.append({'input': src, 'expected': 'tokens of the documented syntax',
-                                 'actual': '; '.join(problems[:3]), 'replay': _REPLAY_TEMPLATE % src})
     rnd = random.Random(ctx.seed)
-    for _ in range(sample):
-        n = rnd.randint(*sample_len)
-        src = ''.join(rnd.choice(alphabet) for _ in range(n))
-        cases += 1
+
+    def inputs():
+        for n in range(0, max_len + 1):
+            for tup in itertools.product(alphabet, repeat=n):
+                yield ''.join(tup)
+        for _ in range(sample):
+            n = rnd.randint(*sample_len)
+            yield ''.join(rnd.choice(alphabet) for _ in range(n))
+
+    def check_one(src):
         try:
             problems = _observe_token_stream(src)
-        except Exception as e:
+        except Exception as e:       # an exception of the real code is a finding, not a checker error
             problems = ['exception %r' % (e,)]
         if problems:
-            failures.append({'input': src, 'expected': 'tokens of the documented syntax',
-                             'actual': '; '.join(problems[:3]), 'replay': _REPLAY_TEMPLATE % src})
+            return {'input': src, 'expected': 'tokens of the documented syntax',
+                    'actual': '; '.join(problems[:3]), 'replay': _REPLAY_TEMPLATE % src}
+        return None
+
+    cases, failures = _enumerate_with_watchdog(inputs(), check_one)
     ctx.bounded_result(name, 'all sources of length <= %d over %r%s' % (
         max_len, alphabet, (' + %d random sources of length %d..%d (seed %d)' % (
             sample, sample_len[0], sample_len[1], ctx.seed)) if sample else ''),
@@ -1216,26 +1245,28 @@ def _bounded_split(ctx):
     import itertools
     alphabet = '@[]a_-é'
     max_len = 8 if ctx.tier == 'thorough' else 7
-    failures = []
-    cases = 0
-    for n in range(0, max_len + 1):
-        for tup in itertools.product(alphabet, repeat=n):
-            s = ''.join(tup)
-            cases += 1
-            actual = [(f.value, f.is_symbol) for f in symbol_syntax.split(s)]
-            expected = reference_split(s)
-            # also: the declarative clause -- no constant fragment covers the start of a reference
-            off = 0
-            covered = None
-            for value, is_symbol in actual:
-                if not is_symbol:
-                    for k in range(off, off + len(value)):
-                        if ref_starts_at(s, k):
-                            covered = k
-                off += len(value) + (4 if is_symbol else 0)
-            if actual != expected or covered is not None:
-                failures.append({'input': s, 'expected': expected, 'actual': actual,
-                                 'replay': _SPLIT_REPLAY % s})
+    def inputs():
+        for n in range(0, max_len + 1):
+            for tup in itertools.product(alphabet, repeat=n):
+                yield ''.join(tup)
+
+    def check_one(s):
+        actual = [(f.value, f.is_symbol) for f in symbol_syntax.split(s)]
+        expected = reference_split(s)
+        # also: the declarative clause -- no constant fragment covers the start of a reference
+        off = 0
+        covered = None
+        for value, is_symbol in actual:
+            if not is_symbol:
+                for k in range(off, off + len(value)):
+                    if ref_starts_at(s, k):
+                        covered = k
+            off += len(value) + (4 if is_symbol else 0)
+        if actual != expected or covered is not None:
+            return {'input': s, 'expected': expected, 'actual': actual, 'replay': _SPLIT_REPLAY % s}
+        return None
+
+    cases, failures = _enumerate_with_watchdog(inputs(), check_one)
     ctx.bounded_result('symbol_syntax.split', 'all strings of length <= %d over %r' % (max_len, alphabet), cases,
                        exhaustive=True, failures=failures,
                        note='fragments of the real split == independent left-to-right reader; no constant fragment '
